@@ -1607,3 +1607,101 @@ def unroll_dispatch_tables(tree: ast.Module) -> List[str]:
                     if any(isinstance(s, ast.FunctionDef) and s.name == h for s in body):
                         body[:] = [s for s in body if not (isinstance(s, ast.FunctionDef) and s.name == h)] or [ast.Pass()]
     return log
+
+
+# ---- thin methods of the package's records, across modules -------------------------------------------------------------------------------
+
+def expand_thin_record_methods(trees: Dict[str, ast.Module], known: Dict[str, Set[str]]) -> Dict[str, List[str]]:
+    """A method that a later change adds to a record of the package (NamedTuple / dataclass) and whose body is one `return <expression>` - `def with_paths(self, kept,
+    loaded): return self._replace(requested_paths=kept, loaded_paths=loaded)` - is that expression: a call `<receiver>.with_paths(kept=a, loaded=b)` anywhere in the
+    package reads `<receiver>._replace(requested_paths=a, loaded_paths=b)`.  Only methods the reference tree does not have, whose name no other class of the package
+    defines, called on a simple receiver with arguments that can be written where the parameters stand."""
+    logs: Dict[str, List[str]] = {}
+    thin: Dict[str, Tuple[str, ast.ClassDef, FuncDef]] = {}
+    all_methods: Dict[str, int] = {}
+    for mod, tree in trees.items():
+        for st in tree.body:
+            if isinstance(st, ast.ClassDef):
+                for m in st.body:
+                    if isinstance(m, ast.FunctionDef):
+                        all_methods[m.name] = all_methods.get(m.name, 0) + 1
+    for mod, tree in trees.items():
+        for st in tree.body:
+            if not isinstance(st, ast.ClassDef):
+                continue
+            is_record = any(ast.unparse(b).split(".")[-1] == "NamedTuple" for b in st.bases) or any("dataclass" in ast.unparse(d) for d in st.decorator_list)
+            if not is_record:
+                continue
+            for m in st.body:
+                if not isinstance(m, ast.FunctionDef) or m.decorator_list or (m.name.startswith("__") and m.name.endswith("__")):
+                    continue
+                if f"{st.name}.{m.name}" in known.get(mod, set()) or all_methods.get(m.name, 0) != 1:
+                    continue
+                body = [x for x in m.body if not (isinstance(x, ast.Expr) and isinstance(x.value, ast.Constant))]
+                a = m.args
+                if len(body) == 1 and isinstance(body[0], ast.Return) and body[0].value is not None and not a.vararg and not a.kwarg and not a.kwonlyargs and not a.posonlyargs \
+                        and a.args and a.args[0].arg == "self" and not any(isinstance(x, (ast.Lambda, ast.Yield, ast.Await, ast.NamedExpr)) for x in ast.walk(body[0].value)):
+                    thin[m.name] = (mod, st, m)
+    if not thin:
+        return logs
+    used: Set[str] = set()
+    for mod, tree in trees.items():
+        parents: Dict[int, Tuple[ast.AST, str, Optional[int]]] = {}
+        for p in ast.walk(tree):
+            for fld, val in ast.iter_fields(p):
+                if isinstance(val, list):
+                    for i, c in enumerate(val):
+                        if isinstance(c, ast.AST):
+                            parents[id(c)] = (p, fld, i)
+                elif isinstance(val, ast.AST):
+                    parents[id(val)] = (p, fld, None)
+        for c in [n for n in ast.walk(tree) if isinstance(n, ast.Call)]:
+            f = c.func
+            if not (isinstance(f, ast.Attribute) and f.attr in thin and _simple_arg(f.value)):
+                continue
+            _m, _cls, fd = thin[f.attr]
+            params = [x.arg for x in fd.args.args[1:]]
+            defaults = fd.args.defaults
+            off = len(params) - len(defaults)
+            mapping: Dict[str, ast.AST] = {"self": f.value}
+            ok = not any(isinstance(x, ast.Starred) for x in c.args) and len(c.args) <= len(params)
+            for i, x in enumerate(c.args[:len(params)]):
+                mapping[params[i]] = x
+            for k in c.keywords:
+                if k.arg is None or k.arg not in params or k.arg in mapping:
+                    ok = False
+                else:
+                    mapping[k.arg] = k.value
+            for i, pn in enumerate(params):
+                if pn not in mapping:
+                    if i >= off:
+                        mapping[pn] = defaults[i - off]
+                    else:
+                        ok = False
+            ret = fd.body[-1].value  # type: ignore
+            counts: Dict[str, int] = {}
+            for n in ast.walk(ret):
+                if isinstance(n, ast.Name) and isinstance(n.ctx, ast.Load):
+                    counts[n.id] = counts.get(n.id, 0) + 1
+            if not ok or any(not _simple_arg(v) and counts.get(k_, 0) > 1 for k_, v in mapping.items()):
+                continue
+            new = _Subst(mapping).visit(copy.deepcopy(ret))
+            ast.copy_location(new, c)
+            ast.fix_missing_locations(new)
+            par = parents.get(id(c))
+            if par is None:
+                continue
+            p, fld, i = par
+            if i is None:
+                setattr(p, fld, new)
+            else:
+                getattr(p, fld)[i] = new
+            used.add(f.attr)
+            logs.setdefault(mod, []).append(f"call of the record method {thin[f.attr][1].name}.{f.attr} read as the expression it returns")
+    # a method that is not referred to any more is dropped
+    for name in used:
+        mod, cls, fd = thin[name]
+        if not any(isinstance(n, ast.Attribute) and n.attr == name for t in trees.values() for n in ast.walk(t)):
+            cls.body[:] = [x for x in cls.body if x is not fd] or [ast.Pass()]
+    return logs
+
